@@ -11,7 +11,7 @@ extern "C" {
 struct vp_report {
     int      nontrivial;   /* by the property's NT rule */
     uint64_t case_hash;    /* hash of the decoded case */
-    uint32_t classes;      /* bit set of classes hit */
+    uint64_t classes;      /* bit set of classes hit (bit i <-> class_names[i]) */
     uint32_t excluded;     /* patterns skipped because of an open finding */
     char     key[96];      /* failure key */
     char     msg[768];     /* oracle message */
@@ -27,7 +27,7 @@ struct vp_executor {
     const char *id;
     const char *variant;
     size_t      tape_max;
-    const char *const *class_names;  /* NULL-terminated, <= 32 */
+    const char *const *class_names;  /* NULL-terminated, <= 64 */
     int (*run)(const uint8_t *tape, size_t len, struct vp_report *rep, unsigned flags);
     /* optional extra mode (schedule enumeration...): returns exit status */
     int (*extra)(int argc, char **argv);
